@@ -369,4 +369,7 @@ def obligations(tier):
             o.append(Obl(f"single-threaded[{dn},optimize={opt}]", (lambda dn, opt: lambda **kw: single_threaded(dn, opt, **kw))(dn, opt),
                          [(f"s{k}", 0, 1) for k in range(8)], setup=setup, functions=fns, wall_s=wall,
                          bounds=f"real finalized plan '{dn}', every subset of operations marked computed (resume)", witness_rule=lambda m: any(m.values())))
+    from harness import execwire  # the real thread/process executor entry points on the same plans
+
+    o.extend(execwire.obligations(tier, fns, wall))
     return o
